@@ -15,6 +15,7 @@ Line-protocol driver for C06 (ledger conservation).
   tx node <src> <registryOk>           OperatorNode transaction (type 7)
   exec                                 run the queued transactions as one block
   refund <k> (<addr> <dec>)*k          RefundManager.CheckAndMove over that escrow list
+  after <h> <k> (<h_i> <addr> <dec>)*k VMExecutor.after at height h: escrow += entries, then CheckAndMove(h)
   amt <amountHex>                      utility.StrToBigInt alone
 
 script := "-" | action ("," action)*
@@ -29,6 +30,7 @@ structure DS where
   univ : List Addr
   inits : List (Nat × Script)
   queue : List Tx          -- reversed
+  escrow : Escrow := []
 
 def emptyWorld : World :=
   { st := { bal := [], dead := [], fresh := 0, burned := 0 }, code := [], ctx := { gasUsed := none } }
@@ -79,6 +81,16 @@ def pairs? {α β : Type} (fa : String → Option α) (fb : String → Option β
     let y ← fb b
     let t ← pairs? fa fb r
     pure ((x, y) :: t)
+
+def triples? : List String → Option Escrow
+  | [] => some []
+  | h :: a :: v :: r => do
+    let h ← nat? h
+    let a ← addr? a
+    let v ← nat? v
+    let t ← triples? r
+    pure ((h, a, v) :: t)
+  | _ => none
 
 def amount? (s : String) : Option Amount := (str? s).map strToBigInt
 
@@ -175,6 +187,14 @@ def step (ds : DS) (line : String) : DS × String :=
       let ds' := { ds with w := { ds.w with st := { ds.w.st with bal := refundMove ds.w.st.bal ps } } }
       (ds', showState ds')
     | _, _ => (ds, "bad-op")
+  | "after" :: h :: k :: rest =>
+    match nat? h, nat? k, triples? rest with
+    | some h, some k, some ts =>
+      if ts.length != k then (ds, "bad-op") else
+      let r := afterBlock ds.w.st.bal ds.escrow h ts
+      let ds' := { ds with w := { ds.w with st := { ds.w.st with bal := r.1 } }, escrow := r.2 }
+      (ds', "E=" ++ toString (escrowTotal r.2) ++ " " ++ showState ds')
+    | _, _, _ => (ds, "bad-op")
   | ["amt", h] =>
     match amount? h with
     | some a => (ds, showAmount a)
